@@ -198,6 +198,28 @@ def check(F, rep, tier):
             if good: rep.ok("R01.4", "push into %s guarded by !is_empty() (if / filter)" % tgt, sample=site, nontrivial_key=key + str(bi))
             else: rep.bad("R01.4", "empty-identifier:" + key, "an identifier is pushed into %s without a non-empty guard (an empty identifier is invalid in both grammars)" % tgt, site)
     rep.floor("R01.4", "identifier pushes on the rendering path", n_push, 3)
+    # the optional vectors are created only when something is put into them: `Some(vec![])` prints a bare '+' / '-'
+    n_goi = 0
+    for f0 in [g for g in cands if g.path not in called]:
+        f = mir.inlined(F, f0, depth=6)
+        for bi, t in f.calls():
+            if not (mir.callee(t) or "").endswith("Option::<T>::get_or_insert_with"): continue
+            flds = {o.fields()[-1] for o in mir.trace_op(f, t[2][0], transparent=()) if o.fields()}
+            tgt = next((x for x in ("pre_release", "build_metadata", "local") if x in flds), None)
+            if tgt is None: continue
+            n_goi += 1
+            site = "%s (in %s) bb%d line %s" % (f.where(), (f.blocks[bi].get("from") or f0.path).rsplit("::", 1)[-1], bi, f.blocks[bi]["line"])
+            # an append on this very result must follow on every path to the function's exit
+            appends = []
+            for b2, t2 in f.calls():
+                c2 = mir.callee(t2) or ""
+                if (c2.endswith("Vec::<T, A>::push") or c2.endswith("::extend")) and any(o.kind == "call" and o.data == bi for o in mir.trace_op(f, t2[2][0], transparent=())):
+                    appends.append(b2)
+            if appends and mir.must_pass(f, appends, src=bi):
+                rep.ok("R01.4", "%s is created (get_or_insert_with) only together with an append" % tgt, sample=site, nontrivial_key="goi%s%d" % (tgt, bi))
+            else:
+                rep.bad("R01.4", "empty-section-created:%s" % tgt, "%s is created with get_or_insert_with on a path where nothing is appended afterwards: an empty %s is printed as a bare separator (e.g. '1.2.3+')" % (tgt, tgt), site)
+    rep.floor("R01.4", "creations of the optional identifier vectors", n_goi, 2)
     # ---- R01.6 a PEP 440 version always has a release segment ---------------------------------------
     pf = F.find(FROMS[1])
     if pf:
